@@ -30,6 +30,8 @@ type genState struct {
 	classes map[string]int
 	sawBad  bool
 
+	lastHonest *signaling_rpc.SessionMsg // the last genuine message of A delivered to the client
+
 	badChecks []badCheck
 	named     []string // acks / clears that touched a message they do not name
 	earlyOk   []string // Sends that reported success without an ack naming them
@@ -158,6 +160,9 @@ func (g *genState) next(p *scriptProfile) {
 		m := r.tab.craft(cls, g.body(), seq, rng.Intn(512), enc)
 		if sy := r.tab.lookup(m); sy != nil {
 			cls = sy.class
+			if sy.honest {
+				g.lastHonest = m
+			}
 		}
 		r.apply(&sop{kind: "resp", resp: rRecv(m), note: cls})
 		g.class("resp:recv-" + cls)
@@ -166,11 +171,26 @@ func (g *genState) next(p *scriptProfile) {
 			return
 		}
 		cls := badClasses[rng.Intn(len(badClasses))]
-		// every forged class in every encoding of the signature object
-		enc := encoding{att: attChoices[rng.Intn(len(attChoices))], extra: rng.Intn(4) == 0}
-		m := r.tab.craft(cls, g.body(), g.nextSeq, rng.Intn(512), enc)
+		var m *signaling_rpc.SessionMsg
+		if g.lastHonest != nil && rng.Intn(2) == 0 {
+			// stateful adversary: a variant of a message the client has already verified
+			// (whatever stage it is in now: pending, returned by Recv, acknowledged, before or
+			// after a re-open / reconnect)
+			m = r.tab.derive(g.lastHonest, derivedVariants[rng.Intn(len(derivedVariants))], rng.Intn(512))
+			if r.tab.lookup(m).honest {
+				// byte-identical replay, other sequence number, well-formed attached key: accepted
+				cls = r.tab.lookup(m).class
+				r.apply(&sop{kind: "resp", resp: rRecv(m), note: cls})
+				g.class("resp:recv-" + cls)
+				return
+			}
+		} else {
+			// every forged class in every encoding of the signature object
+			enc := encoding{att: attChoices[rng.Intn(len(attChoices))], extra: rng.Intn(4) == 0}
+			m = r.tab.craft(cls, g.body(), g.nextSeq, rng.Intn(512), enc)
+			g.nextSeq++
+		}
 		cls = r.tab.lookup(m).class
-		g.nextSeq++
 		o := &sop{kind: "resp", resp: rRecv(m), note: cls}
 		// a later honest message on the same stream must not be processed
 		if rng.Intn(2) == 0 {
